@@ -148,12 +148,64 @@ func runC09(c *Ctx) {
 	c.check(len(mutSites) == 1 && (mutSites[0].callee == "os.Create" || mutSites[0].callee == "os.OpenFile" || mutSites[0].callee == "os.WriteFile"), "C09.2", "internal/kessoku:single-writer", "-",
 		"internal/kessoku has exactly one filesystem mutator call site (os.Create of the output file)", fmt.Sprintf("%d site(s): %v", len(mutSites), siteNames(L, mutSites)))
 	validators := map[string]bool{"(*" + genPkg + ".Parser).ParseFile": true, genPkg + ".CreateInjector": true}
+	// a helper that runs a validator and reports its failure counts as a validation call of its caller
+	isValidation := func(cs callSite) bool {
+		if validators[cs.callee] {
+			return true
+		}
+		cal := cs.common.StaticCallee()
+		if cal == nil || cal.Pkg == nil || cal.Pkg.Pkg.Path() != genPkg || len(cal.Blocks) == 0 || errorResultIndex(cal) < 0 {
+			return false
+		}
+		for _, in := range callsIn(cal) {
+			if validators[in.callee] && in.value() != nil {
+				if ok, _ := errorBranchReturnsNonNil(in.value()); ok {
+					return true
+				}
+			}
+		}
+		return false
+	}
 	for _, m := range mutSites {
 		fn := m.fn
 		c.seen(fnName(fn))
+		nameArg := m.arg(0)
+		// when the file is created in a helper (no validation call of its own), the rule is applied at the helper's only call site
+		for lift := 0; lift < 2; lift++ {
+			has := false
+			for _, cs := range callsIn(fn) {
+				if isValidation(cs) {
+					has = true
+				}
+			}
+			if has {
+				break
+			}
+			var callers []callSite
+			for _, g := range gen {
+				for _, cs := range callsIn(g) {
+					if cs.common.StaticCallee() == fn {
+						callers = append(callers, cs)
+					}
+				}
+			}
+			if len(callers) != 1 || callers[0].value() == nil {
+				break
+			}
+			if p, isP := resolve(nameArg).(*ssa.Parameter); isP && p.Parent() == fn {
+				for i, q := range fn.Params {
+					if q == p && i < len(callers[0].common.Args) {
+						nameArg = callers[0].common.Args[i]
+					}
+				}
+			}
+			m = callers[0]
+			fn = m.fn
+			c.seen(fnName(fn))
+		}
 		nVal := 0
 		for _, cs := range callsIn(fn) {
-			if !validators[cs.callee] {
+			if !isValidation(cs) {
 				continue
 			}
 			nVal++
@@ -184,7 +236,7 @@ func runC09(c *Ctx) {
 		c.floor("C09.2", "validation calls (ParseFile, CreateInjector) in the function that creates the output", nVal, 2)
 		// the created name is the output name of the processed file
 		s := newSym(L, map[string]bool{})
-		terms := s.eval(m.arg(0))
+		terms := s.eval(nameArg)
 		okName := len(terms) == 1 && strings.Contains(terms[0], "path/filepath.Ext(param:filename)") && strings.Contains(terms[0], `"_band"`)
 		c.check(okName, "C09.2", fnName(fn)+":output-name", L.pos(m.instr.Pos()), "the created file is <source>_band<ext> of the file being processed", strings.Join(terms, " | "))
 	}
